@@ -160,6 +160,16 @@ CHECKS = {
   "note": COMMON_NOTE + "Modelled not verified: the URL parser and the regex engine are oracles (the normaliser's own shape guarantees are "
           "C09's); archive() is replaced by scripted answers at this level and runs for real only in the end-to-end scenarios.",
  },
+ "C07": {
+  "text": "Theorems over a model of HTMLAssets / HTMLOutlinks on the parsed element list: src and every srcset candidate of every img, "
+          "script src, video / audio src, source src / srcset, link href (rel=alternate only with --capture-alternate-pages), every "
+          "url(...) of style elements (passed on as written) and of style attributes, anchors as outlinks - each unless its tag is "
+          "disabled. Generated documents (quoting styles, reference forms, nesting, decoys) are fetched as seeds through the real stages; "
+          "the URLs requests are built for are compared with urljoin's (browser) resolution, and the extractor's raw output with the "
+          "model on the same element list.",
+  "note": COMMON_NOTE + "The HTML parser and the two regular expressions' engine are oracles (the model re-implements the two patterns); "
+          "resolution is the normaliser's (C09).",
+ },
  "C08": {
   "text": "Theorems over the stage model for every store content, tree and node list: a node whose URL the local store holds is marked "
           "seen (except a seed / redirect target recorded only as an asset); a node is marked seen only if its URL was in the store when "
